@@ -71,8 +71,8 @@ class Tier:
     def kinds_for(self, shape, mixing=False):
         """operand kinds; `mixing` (binary families, thorough tier) adds float32 arrays: structure/kind checks only"""
         out = ["arr"] if len(shape) else ["0d", "py", "np"]
-        if mixing and not self.quick and not self.cplx and len(shape) in (0, 1, 2):
-            out.append("f32")
+        if mixing and ((not self.quick and not self.cplx and len(shape) in (0, 1, 2)) or (self.cplx and len(shape) == 1)):
+            out.append("f32")       # float32 / complex64 arrays
         return out
 
 
